@@ -1,0 +1,9 @@
+//go:build verif
+
+package limiter
+
+import "github.com/gofiber/fiber/v3/internal/memory"
+
+// VerifMemoryGate installs f as the gate of the internal memory store's garbage collector (see memory.VerifGate);
+// it only exists when the package is built with the `verif` tag.
+func VerifMemoryGate(f func(point string)) { memory.VerifGate = f }
